@@ -414,6 +414,7 @@ impl Future for BodyFut {
                 }
                 Step::WakeSelf => {
                     w().cover.self_wakes += 1;
+                    rt::kernel::note_fault();
                     cx.waker().wake_by_ref();
                 }
                 Step::AwaitAny(g1, g2) => {
